@@ -181,7 +181,9 @@ func (h *c17Hist) neutralise(feat string) *c17Hist {
 var c17NeutralPaths = []string{"a.txt", "data1", "out.log", "sub/f.txt", "notes", "b-2.cfg", "sub/deep.dat", "A_B.TXT",
 	"a_rather_long_file_name_that_goes_on_and_on_for_more_than_sixty_four_bytes.txt"}
 var c17ExtPaths = []string{"sp ace.txt", " lead", "trail ", "two  blanks", "-dash", "--", "-n", "st*r", "q?m", "br[a]ck", "a*", "semi;colon", "amp&er", "pipe|p", "lt<gt>",
-	"par(en)", "hash#", "#hash", "~tilde", "quo'te", "dq\"uote", "$dollar", "$HOME", "back\\slash", "tick`t", "tab\there", "sub/sp ace", "excl!", "br{a,b}ce", "eq=ual", "per%cent", "$(id)", "new\nline", "out:~", "~", "a:~:b", "50%.txt", "100%", "a%%b", "%s.log"}
+	"par(en)", "hash#", "#hash", "~tilde", "quo'te", "dq\"uote", "$dollar", "$HOME", "back\\slash", "tick`t", "tab\there", "sub/sp ace", "excl!", "br{a,b}ce", "eq=ual", "per%cent", "$(id)", "new\nline", "out:~", "~", "a:~:b", "50%.txt", "100%", "a%%b", "%s.log",
+	// names that are operators or options of the commands a script is likely to hand them to (test, [, cat, printf)
+	"=", "==", "!=", "=~", "-nt", "-ot", "-ef", "-eq", "-a", "-o", "!", "(", ")", "<", ">", "-e", "-f", "-z", "-L", "-v", "[", "]", "-", "sub/=", "sub/-nt"}
 var c17NeutralContents = []string{"Hello World", "Hello Moon", "abc", "42", "line one", "x", "The quick brown fox", "key=value", "a,b,c", "UPPER lower 123", "dots.and-dashes_ok", "path/like/value",
 	// words that end or start something in a shell script when they stand alone on a line
 	"EOF", "END", "EOT", "done", "fi", "exit",
